@@ -543,6 +543,24 @@ impl Exec {
                     Err(_) => self.emit(line, "PANIC"),
                 }
             }
+            ["txt.rt", ty, v] => {
+                // round trip of one value: show, then parse the shown text (C16)
+                let Some(text) = crate::codec::show_by_type(ty, v) else { return false };
+                self.emit(format!("txt.show {ty} {v}"), format!("txt {}", crate::codec::hex(&text)));
+                let out = crate::codec::parse_by_type(ty, &text).unwrap_or_else(|| "?".into());
+                self.emit(format!("txt.parse {ty} {}", crate::codec::hex(&text)).trim_end().to_string(), format!("parsed {out}"));
+                // listings: the value the queue/level hands back is canonicalised by (timestamp, id)
+                let want = if *ty == "queue" || *ty == "level" { crate::codec::canon_value(ty, v) } else { v.to_string() };
+                self.emit(format!("judge.C16 {ty} {want} {out}"), "J C16 ok");
+                self.emit(format!("judge.C18 {out}"), "J C18 ok");
+            }
+            ["txt.parse", ty, rest @ ..] => {
+                let h = rest.first().copied().unwrap_or("");
+                let Some(text) = crate::codec::unhex(h) else { return false };
+                let out = crate::codec::parse_by_type(ty, &text).unwrap_or_else(|| "?".into());
+                self.emit(line, format!("parsed {out}"));
+                self.emit(format!("judge.C18 {out}"), "J C18 ok");
+            }
             ["read", kind] => {
                 // read-only calls: must not change any later result (C07); outputs are not compared here
                 let r = catch_unwind(AssertUnwindSafe(|| {
